@@ -90,3 +90,17 @@ def result_survives(scorer, cuts_a, cuts_b):
     scorer.evaluate(np.array(cuts_b))
     ok = r1.shape == snap.shape and bool(np.array_equal(r1, snap, equal_nan=True))
     return ok, snap, np.array(r1, copy=True)
+
+
+def two_generic_columns(xs):
+    """2-column data in which (almost) every window of 3 rows has a positive definite sample covariance: the series plus
+    a texture, and a second 'generic' column.  Used for the multivariate-cost (GaussianCovCost, p >= 2) families."""
+    n = len(xs)
+    return [[float(xs[t]) + 0.25 * (((t * 7 + 3) % 5) - 2) / 2.0, ((t * t * 3 + t) % 7) / 4.0 + 0.5 * float(xs[n - 1 - t])] for t in range(n)]
+
+
+def whole_cost(make, rows):
+    """The cost of exactly these rows by the definition: a fresh cost fitted on them, evaluated on [0, len), summed over
+    its output columns."""
+    rows = np.asarray(rows, dtype=float)
+    return float(make().fit(rows).evaluate(np.array([[0, len(rows)]])).sum())
